@@ -423,7 +423,7 @@ class ActionPrebuilder(xtuml.tools.Walker):
         
         act_sel = self.new('ACT_SEL',
                            is_implicit=implicit,
-                           cardinality=node.cardinality)
+                           cardinality=node.cardinality.lower())
         
         relate(act_sel, act_smt, 603)
         relate(act_sel, act_lnk_start, 637)
@@ -632,7 +632,7 @@ class ActionPrebuilder(xtuml.tools.Walker):
             
         act_fio = self.new('ACT_FIO',
                            is_implicit=implicit,
-                           cardinality=node.cardinality)
+                           cardinality=node.cardinality.lower())
         
         relate(act_fio, act_smt, 603)
         relate(act_fio, v_var, 639)
@@ -660,7 +660,7 @@ class ActionPrebuilder(xtuml.tools.Walker):
             
         act_fiw = self.new('ACT_FIW',
                            is_implicit=implicit,
-                           cardinality=node.cardinality)
+                           cardinality=node.cardinality.lower())
         
         relate(act_fiw, act_smt, 603)
         relate(act_fiw, v_var, 665)
